@@ -136,3 +136,5 @@ pub fn code_value(debug: &str) -> String {
     }
     "?nocode".to_string()
 }
+
+pub mod simquic;
